@@ -3,6 +3,10 @@
 set -e
 cd "$(dirname "$0")"
 rm -rf coq/_cases
+PYTHONPATH=/verif python3 -c "
+import os
+from harness import translate
+open('coq/GenSched.v', 'w').write(translate.translate(os.environ.get('VERIF_REPO', '/repo')))"
 cd coq
 coq_makefile -f _CoqProject -o Makefile
 make clean >/dev/null 2>&1 || true
